@@ -362,3 +362,16 @@ Proof.
   destruct (negb (pos <? alloc_size s) || position_required s pos); [|discriminate].
   unfold deleted_at. destruct (find (fun ph0 => fst ph0 =? pos) (cd_deleted y)) as [ph'|]; [|discriminate]. injection C as <-. reflexivity.
 Qed.
+
+(* ------------------------------------------------------------------------------------------------ *)
+(** * The mapped disks are decided AFTER the clean-up (state_write_content: clear unused positions, then "map disks") *)
+(* `pdisks s` are the disks after fs_position_clear_deleted; a disk gets a mapping index (an 'M' record, its 'h' record) exactly when
+   the disk named by one of the maps is not fs_is_empty in that cleaned state. *)
+Theorem mapping_after_cleanup s :
+  p_idx (prepare s) = assign_idx (pdisks s) (alloc_size s) (c_maps s) 0 (map (fun _ => None) (pdisks s)).
+Proof. apply p_idx_eq. Qed.
+
+Theorem map_kept_after_cleanup s : wf s -> forall m, In m (c_maps s) ->
+  map_kept (pdisks s) (p_idx (prepare s)) m
+  = negb (disk_empty (nth (dix (pdisks s) (cm_name m)) (pdisks s) (empty_disk [])) (alloc_size s)).
+Proof. intros W m Hm. apply (proj2 (idxs_spec s W) m Hm). Qed.
